@@ -261,6 +261,33 @@ class C02(Prop):
                 out.append(('multi-range', 'NaN or positive log-likelihood in %r' % (got,), None))
             else:
                 n = len(got)
+                # the documented per-station expression evaluated here, tensor by tensor (amplitude = coefficients . tensor)
+                nl_, nm_ = len(case['coeffs'][0]), len(case['mts'])
+                if n == nl_ * nm_ and not case.get('many'):
+                    for l_ in range(nl_):
+                        for j_ in range(nm_):
+                            ref, cond = 0.0, 1.0
+                            for s_ in range(len(case['coeffs'])):
+                                A = math.fsum(c_ * m_ for c_, m_ in zip(case['coeffs'][s_][l_], case['mts'][j_]))
+                                w_ = case['w'][s_]
+                                if k == 'pol-multi':
+                                    sg_ = case['sigma'][s_] or 1e-24
+                                    z_ = A / (math.sqrt(2) * sg_)
+                                    p_ = 0.5 * (1 + math.erf(z_)) * (1 - w_) + 0.5 * (1 + math.erf(-z_)) * w_
+                                    cond += abs(z_)
+                                else:
+                                    pp_, pn_ = case['pp'][s_], case['pn'][s_]
+                                    p_ = (pp_ * (1 - w_) + pn_ * w_) if A > 0 else (pn_ * (1 - w_) + pp_ * w_) if A < 0 else 0.5 * (pp_ + pn_)
+                                    if abs(A) < 1e-15:
+                                        cond = float('inf')          # the sign of a rounding-level amplitude is not defined
+                                ref = NEG_INF if (p_ <= 0 or ref == NEG_INF) else ref + math.log(p_)
+                            g_ = got[l_ * nm_ + j_]
+                            if cond < 20 and ref > -300 and not close(ref, g_, rtol=1e-6, atol=1e-6 * cond):
+                                out.append(('multi-expression', 'location sample %d, tensor %d of %d: ln p = %r, the documented expression summed over stations gives %r'
+                                            % (l_, j_, nm_, g_, ref), None))
+                                break
+                        if out:
+                            break
                 for i in range(n):
                     parts = [s[i] for s in impl['singles']]
                     tot = NEG_INF if any(p == NEG_INF for p in parts) else math.fsum(parts)
